@@ -383,6 +383,6 @@ func callablePairs(funcs []any, rec *cRec, report func(string, ...any)) int {
 
 func init() {
 	vrt.Register(&vrt.Scenario{Name: "F-callable", Props: []string{"C19"}, Quick: 0, Thorough: 0,
-		Desc: "Call(NewCallable(f), CallArgs(...), CallResults/CallResultsSlice(...)) for 14 signatures x every argument list of length <= arity+1 over 13 values (incl. untyped nil, typed nil pointer) x 13 result-target variants, against independently computed acceptability and a direct call",
+		Desc: "Call(NewCallable(f), CallArgs(...), CallResults/CallResultsSlice(...)) for 15 signatures x every argument list of length <= arity+1 over 13 values (incl. untyped nil, typed nil pointer) x 14 result-target variants x option order / omission, against independently computed acceptability and a direct call; the capacity boundary of reflect.FuncOf (127-300 values); the CallArgs slice changed between building the option and the Call; every (refused call, later call) pair",
 		Run:  callableEnum, Check: callableCheck})
 }
